@@ -297,7 +297,8 @@ def check(ctx, run):
                               "MockNamedValueComparator::isEqual": lambda *a_: (seen.append(("isEqual",) + tuple(a_)), cmp)[1]})
         ev = Evaluator(prog, eq, env=env, calls=hooks)
         ev.pass_object = True
-        ev.inline = NVINL
+        # (a string comparison written with the C-string primitives instead of string objects is folded through them)
+        ev.inline = set(NVINL) | ({"SimpleString::StrCmp", "SimpleString::StrNCmp", "SimpleString::StrLen"} - set(hooks))
         ev.run_blocks(eq.entry, max_steps=4000)
         r = getattr(ev, "ret", None)
         if not isinstance(r, int):
@@ -319,7 +320,12 @@ def check(ctx, run):
             run.ob("R5", "%s compares its own member by identity" % t, eq.site, (r1_, r2_) == (1, 0), witness={"own equal, all other members differ": r1_, "own differ, all other members equal": r2_})
         r1_, _ = fold_equals("const char*", "const char*", ("str", "hello"), ("str", "hello"), ("stringValue_",), False)
         r2_, _ = fold_equals("const char*", "const char*", ("str", "hello"), ("str", "hellp"), ("stringValue_",), True)
-        run.ob("R5", "strings compare by content", eq.site, (r1_, r2_) == (1, 0), witness={"two copies of one text": r1_, "texts differing in the last character": r2_})
+        pre = {}
+        for x_, y_ in (("open", "openat"), ("openat", "open"), ("", "x"), ("x", ""), ("", "")):
+            pre["%r vs %r" % (x_, y_)], _ = fold_equals("const char*", "const char*", ("str", x_), ("str", y_), ("stringValue_",), True)
+        okp = all(v_ == (1 if k_ == "'' vs ''" else 0) for k_, v_ in pre.items())
+        run.ob("R5", "strings compare by content (whole strings: a proper prefix, the empty string and a longer string are different values in both directions)", eq.site, (r1_, r2_) == (1, 0) and okp,
+               witness=dict({"two copies of one text": r1_, "texts differing in the last character": r2_}, **pre))
         okd, wit = True, []
         for ans in (1, 0):
             r, seen = fold_equals("double", "double", 0, 0, (), False, dbl=ans)
